@@ -56,6 +56,21 @@ def other(o, x):
     return [{'a': 'OtherCommit', 'o': o, 'x': x}]
 
 
+def wrong(m):
+    """a 2PC call with a foreign transaction (store | storeBlob | tpc_vote | tpc_finish | tpc_abort); enabled while a
+    commit is in progress"""
+    return [{'a': 'Wrong', 'm': m}]
+
+
+def other_tpc(b, x, end):
+    """the second writer's commit of a rewrite of blob b, aborted or finished, its bookkeeping still to come"""
+    return [{'a': 'OtherAbort' if end == 'abort' else 'OtherFinish', 'b': b, 'x': x}]
+
+
+def late():
+    return [{'a': 'Late'}]
+
+
 def pack(T=0):
     """T <= 0: at the tid of the (last + T)-th committed transaction; T >= 1: at that second"""
     return [{'a': 'Pack', 'T': T}]
@@ -64,23 +79,30 @@ def pack(T=0):
 _TAIL = [{'a': 'ConnAbort'}, {'a': 'TpcAbort'}]      # skipped unless the commit is still open
 
 
-def commit(end='finish', begin=None):
+def commit(end='finish', begin=None, at=None):
     """a two-phase commit that ends at `end`: finish | begin (abort right after tpc_begin) | store (abort after the
-    stores) | vote (abort after the vote).  Whatever the stores yield, the transaction is closed afterwards."""
-    s = [begin or {'a': 'TpcBegin'}]
+    stores) | vote (abort after the vote).  Whatever the stores yield, the transaction is closed afterwards.
+    at: {'begin' | 'store' | 'vote': [entries]} - calls made while the commit is at that phase (wrong(), late())."""
+    at = at or {}
+    s = [begin or {'a': 'TpcBegin'}] + list(at.get('begin', ()))
     if end == 'begin':
         return s + _TAIL
-    s.append({'a': 'Store'})
+    s += [{'a': 'Store'}] + list(at.get('store', ()))
     if end == 'store':
         return s + _TAIL
-    s.append({'a': 'Vote'})
+    s += [{'a': 'Vote'}] + list(at.get('vote', ()))
     if end == 'vote':
         return s + [{'a': 'TpcAbort'}] + _TAIL
     return s + [{'a': 'Finish'}] + _TAIL
 
 
-def undo(t=0, end='finish'):
-    return commit(end, begin={'a': 'UBegin', 't': t})
+def undo(t=0, end='finish', at=None):
+    return commit(end, begin={'a': 'UBegin', 't': t}, at=at)
+
+
+def undo_copy_fail(t=0):
+    """an undo whose first blob copy meets a failing write; the transaction is aborted"""
+    return [{'a': 'UBegin', 't': t}, {'a': 'UStoreCopyFail'}] + _TAIL
 
 
 # ---- rendering ----------------------------------------------------------------------------------------------
@@ -106,7 +128,8 @@ def render(scripts):
 _NODE = re.compile(r'^(-?\d+) \[label="((?:[^"\\]|\\.)*)"(?:,tooltip="(?:[^"\\]|\\.)*")?(,style = filled)?\]')
 _EDGE = re.compile(r'^(-?\d+) -> (-?\d+) \[label="([^"]*)"')
 _ARGS = {'CreateBlob': ('b', 'c'), 'Rewrite': ('b', 'x'), 'Append': ('b', 'x'), 'ConsumeFile': ('b', 'x'), 'ConsumeFail': ('b',),
-         'ModifyP': ('v',), 'Rollback': ('k',), 'OtherCommit': ('o', 'x'), 'UBegin': ('t',), 'Pack': ('T',)}
+         'ModifyP': ('v',), 'Rollback': ('k',), 'OtherCommit': ('o', 'x'), 'UBegin': ('t',), 'Pack': ('T',),
+         'Wrong': ('m',), 'OtherAbort': ('b', 'x'), 'OtherFinish': ('b', 'x')}
 
 
 def evaluate(scripts, c, workdir, timeout=600, workers=1):
